@@ -35,11 +35,17 @@ struct WaiterSpec {
   WK kind = kBlock;
   int deadline = 0;  // virtual ns, timed only
   bool until = false;  // timed only: WaitUntil(now + deadline) instead of WaitFor(deadline)
+  bool by_worker = false;  // not a fiber of its own: some worker runs it (Op 'W')
 };
 
 struct Op {
-  char op = 'd';  // a: Add(1)  d: Done(1)  A: Attach(fut)  C: Consume(fut)  r: poll Ready(fut)  S: OneShotEvent::Set
+  // a: Add(1)  d: Done(1)  A: Attach(fut)  C: Consume(fut)  r: poll Ready(fut)  S: OneShotEvent::Set
+  // B: Attach(f[js]...) variadic   I: Attach(begin + js[0], |js|)   K: Consume(f[js]...) variadic
+  // L: Consume(begin + js[0], |js|)   (one call for several futures; I/L need consecutive futures)
+  // W: this worker itself now acts as waiter number arg (e.g. Attach(...) and then Wait() on the same thread)
+  char op = 'd';
   int arg = 0;
+  std::vector<int> js = {};
 };
 
 struct WorkerSpec {
@@ -134,6 +140,9 @@ struct Ctx {
   std::vector<RawJob> jobs;
   TraceExec exec;
   bool cleanup = false;
+  const volatile void* count_addr = nullptr;
+  int zero_crossings = 0;  // fetch_sub on the counter that left it at zero
+  int set_exchanges = 0;   // exchanges on the head word (SetImpl)
 
   explicit Ctx(const Prog& prog) : p{prog} {
     auto nw = p.waiters.size();
@@ -160,6 +169,8 @@ struct Ctx {
     ++rel[k];
     vrt::Event("rel " + std::to_string(k));
     if (long s = Shadow(); s != 0) {
+      // also on stderr at once: a run that later dies (e.g. a second Set walking the sentinel) loses its verdict otherwise
+      std::fprintf(stderr, "ORACLE: waiter %s released while %ld operations are still outstanding\n", kWKName[p.waiters[k].kind], s);
       vrt::Fail("waiter " + std::string(kWKName[p.waiters[k].kind]) + " released while " + std::to_string(s) +
                 " operations are still outstanding");
     }
@@ -236,6 +247,14 @@ using TimedCounter = yaclib::detail::AtomicCounter<yaclib::OneShotEvent::TimedWa
 void MyAfter(const volatile void* obj, std::size_t size, const char* op) {
   Ctx* c = gC;
   if (c != nullptr && vrt::g.active) {
+    if (obj == c->count_addr && std::strcmp(op, "fetch_sub") == 0) {
+      std::uint64_t raw = 1;
+      std::memcpy(&raw, const_cast<const void*>(obj), sizeof raw);
+      c->zero_crossings += raw == 0 ? 1 : 0;
+    }
+    if (obj == c->head_addr && std::strcmp(op, "exchange") == 0) {
+      ++c->set_exchanges;
+    }
     if (obj == c->head_addr) {
       std::uintptr_t raw = 0;
       std::memcpy(&raw, const_cast<const void*>(obj), sizeof raw);
@@ -333,6 +352,9 @@ yaclib::Future<> CoOn(Ctx* c, int k) {
 void RunWaiter(Ctx& c, int k) {
   const WaiterSpec& spec = c.p.waiters[k];
   c.fiber2w[yaclib::fault::Scheduler::GetId()] = k;
+  if (spec.by_worker) {
+    vrt::Event("as " + K(k));
+  }
   switch (spec.kind) {
     case kBlock: {
       if (c.wg != nullptr) {
@@ -414,6 +436,41 @@ void RunWorker(Ctx& c, int i) {
         vrt::Event("op S");
         c.ev->Set();
         break;
+      case 'W':
+        RunWaiter(c, o.arg);
+        break;
+      case 'B':
+      case 'I':
+      case 'K':
+      case 'L': {
+        std::string list;
+        for (int j : o.js) {
+          c.fut_begun[j] = 1;
+          list += (list.empty() ? "" : ",") + K(j);
+        }
+        const bool consume = o.op == 'K' || o.op == 'L';
+        vrt::Event(std::string("op ") + (consume ? "K " : "B ") + list);
+        auto& f = c.futs;
+        const auto& js = o.js;
+        if (o.op == 'B') {
+          if (js.size() == 2) {
+            c.wg->Attach(f[js[0]], f[js[1]]);
+          } else {
+            c.wg->Attach(f[js[0]], f[js[1]], f[js[2]]);
+          }
+        } else if (o.op == 'K') {
+          if (js.size() == 2) {
+            c.wg->Consume(std::move(f[js[0]]), std::move(f[js[1]]));
+          } else {
+            c.wg->Consume(std::move(f[js[0]]), std::move(f[js[1]]), std::move(f[js[2]]));
+          }
+        } else if (o.op == 'I') {
+          c.wg->Attach(f.begin() + js[0], js.size());
+        } else {
+          c.wg->Consume(f.begin() + js[0], f.begin() + js[0] + static_cast<std::ptrdiff_t>(js.size()));
+        }
+        break;
+      }
     }
   }
 }
@@ -439,6 +496,7 @@ void RunProg(const Prog& p) {
     c.head_addr = &wg->_event._head;
     vrt::NameLoc(&wg->_event._head, "h", FmtHead);
     vrt::NameLoc(&wg->_event.count, "c", FmtDec);
+    c.count_addr = &wg->_event.count;
   }
   for (std::size_t j = 0; j < p.futs.size(); ++j) {
     auto [f, pr] = yaclib::MakeContract<Val>();
@@ -474,6 +532,9 @@ void RunProg(const Prog& p) {
     });
   }
   for (std::size_t k = 0; k < p.waiters.size(); ++k) {
+    if (p.waiters[k].by_worker) {
+      continue;
+    }
     ts.emplace_back([&c, k] {
       vrt::NameThread("W" + std::to_string(k));
       RunWaiter(c, static_cast<int>(k));
@@ -493,6 +554,12 @@ void RunProg(const Prog& p) {
   // ---- oracle at the end of the run (property text) ------------------------------------------------------------
   if (c.Shadow() != 0) {
     vrt::Fail("harness: program left operations outstanding");
+  }
+  if (c.set_exchanges != 1) {
+    vrt::Fail("Set ran " + std::to_string(c.set_exchanges) + " times");
+  }
+  if (!p.ose && c.zero_crossings != 1) {
+    vrt::Fail("the count reached zero " + std::to_string(c.zero_crossings) + " times");
   }
   for (std::size_t k = 0; k < p.waiters.size(); ++k) {
     std::string nm = std::string(kWKName[p.waiters[k].kind]) + " waiter";
@@ -597,6 +664,30 @@ Prog Fixed(const std::string& name, int dl) {
   } else if (name == "wg/consume_alone") {
     p.futs = {1};
     D(1, {{'C', 0}, {'d', 0}});
+  } else if (name == "wg/batch_attach_seq") {  // WaitGroup<0>: Attach(f0, f1) then Wait() on the same thread
+    p.futs = {0, 0};
+    D(0, {{'B', 0, {0, 1}}, {'W', 0}});
+    p.waiters.push_back(WaiterSpec{kBlock, 0, false, true});
+  } else if (name == "wg/batch_consume_seq") {  // Consume(begin, end) then co_await on the same thread
+    p.futs = {1, 1};
+    D(0, {{'L', 0, {0, 1}}, {'W', 0}});
+    p.waiters.push_back(WaiterSpec{kInline, 0, false, true});
+  } else if (name == "wg/batch_attach_it_timed") {  // Attach(begin, 2) then WaitFor on the same thread
+    p.futs = {0, 0};
+    D(0, {{'I', 0, {0, 1}}, {'W', 0}});
+    p.waiters.push_back(WaiterSpec{kTimed, dl, false, true});
+  } else if (name == "wg/batch_consume_var_conc") {  // Consume(f0, f1) with a concurrent waiter, WaitGroup<0>
+    p.futs = {1, 1};
+    D(0, {{'K', 0, {0, 1}}});
+    W(kInline);
+  } else if (name == "wg/batch_attach_held") {  // WaitGroup<1>: the attaching worker holds a unit of its own
+    p.futs = {0, 0};
+    D(1, {{'I', 0, {0, 1}}, {'r', 0}, {'d', 0}});
+    W(kInline);
+  } else if (name == "wg/batch3_consume_seq") {  // three futures in one Consume(begin, 3)
+    p.futs = {1, 1, 1};
+    D(0, {{'L', 0, {0, 1, 2}}, {'W', 0}});
+    p.waiters.push_back(WaiterSpec{kBlock, 0, false, true});
   } else if (name == "wg/attach_block") {
     p.futs = {0};
     D(1, {{'A', 0}, {'d', 0}, {'r', 0}});
@@ -638,9 +729,10 @@ Prog Mixed(std::uint64_t seed) {
     return static_cast<int>(rng() % static_cast<std::uint64_t>(n));
   };
   Prog p;
-  int nf = pick(3);
+  int nf = pick(4);
   for (int j = 0; j < nf; ++j) {
-    p.futs.push_back(pick(2));
+    // neighbours often share the kind, so that they can go into one Attach / Consume call
+    p.futs.push_back(j > 0 && pick(3) != 0 ? p.futs[j - 1] : pick(2));
   }
   int next_f = 0;
   for (int i = 0; i < 3; ++i) {
@@ -656,6 +748,18 @@ Prog Mixed(std::uint64_t seed) {
       } else if (r == 1 && extra > 0) {
         w.ops.push_back({'d', 0});
         --extra;
+      } else if (next_f + 1 < nf && p.futs[next_f] == p.futs[next_f + 1] && pick(2) == 0) {
+        // one call for two or three futures of the same kind, variadic or iterator form
+        std::vector<int> js = {next_f, next_f + 1};
+        if (next_f + 2 < nf && p.futs[next_f + 2] == p.futs[next_f] && pick(2) == 0) {
+          js.push_back(next_f + 2);
+        }
+        next_f += static_cast<int>(js.size());
+        bool it = pick(2) == 0;
+        w.ops.push_back(Op{p.futs[js[0]] == 0 ? (it ? 'I' : 'B') : (it ? 'L' : 'K'), 0, js});
+        if (p.futs[js[0]] == 0) {
+          w.ops.push_back({'r', js[pick(static_cast<int>(js.size()))]});
+        }
       } else if (next_f < nf) {
         int j = next_f++;
         w.ops.push_back({p.futs[j] == 0 ? 'A' : 'C', j});
@@ -691,8 +795,11 @@ std::string Describe(const Prog& p) {
     s += " D(" + std::to_string(w.units) + ":";
     for (auto& o : w.ops) {
       s += o.op;
-      if (o.op == 'A' || o.op == 'C' || o.op == 'r') {
+      if (o.op == 'A' || o.op == 'C' || o.op == 'r' || o.op == 'W') {
         s += std::to_string(o.arg);
+      }
+      for (int j : o.js) {
+        s += std::to_string(j);
       }
     }
     s += ")";
@@ -716,7 +823,8 @@ int main(int argc, char** argv) {
   yaclib::verif::gHooks.after = MyAfter;
   const char* fixed[] = {"wg/block_vs_done",  "wg/inline_vs_done", "wg/sticky_vs_done", "wg/on_vs_done",
                          "wg/add_done",       "wg/two_waiters",    "wg/block_inline",   "wg/attach_vs_set",
-                         "wg/consume_vs_set", "wg/consume_alone",   "wg/attach_block",   "ose/job_vs_set",    "ose/block_vs_set",
+                         "wg/consume_vs_set", "wg/consume_alone",   "wg/attach_block",   "wg/batch_attach_seq",
+                         "wg/batch_consume_seq", "wg/batch_consume_var_conc", "wg/batch_attach_held", "wg/batch3_consume_seq",   "ose/job_vs_set",    "ose/block_vs_set",
                          "ose/inline_vs_set", "ose/on_vs_set",     "ose/two_jobs"};
   for (const char* n : fixed) {
     Prog p = Fixed(n, 0);
@@ -726,7 +834,7 @@ int main(int argc, char** argv) {
   }
   // timed scenarios: the deadline is a scenario parameter (virtual time advances 10 ns per scheduler step)
   for (int dl : {10, 20, 30, 50, 80}) {
-    for (const char* n : {"wg/timed_vs_done", "ose/timed_vs_set", "wg/until_vs_done"}) {
+    for (const char* n : {"wg/timed_vs_done", "ose/timed_vs_set", "wg/until_vs_done", "wg/batch_attach_it_timed"}) {
       Prog p = Fixed(n, dl);
       m.Scenario(std::string(n) + "/dl=" + std::to_string(dl), [p] {
         RunProg(p);
